@@ -34,8 +34,15 @@ def cases(tier, seed):
 
 def level_factory(seed, idx, lvl, keys):
     def make():
+        from twosigma.memento.partition import InMemoryPartition
+
         r = core.rng_for(seed, ID, idx, "lvl", lvl)
-        return {k: domain.gen_result(r, 1) for k in keys}
+        d = {k: domain.gen_result(r, 1) for k in keys}
+        rn = core.rng_for(seed, ID, idx, "nested", lvl)
+        for k in keys:  # now and then a value is a partition itself (built afresh on every call, like any value here)
+            if rn.random() < 0.12:
+                d[k] = InMemoryPartition({nk: domain.gen_result(rn, 1) for nk in rn.sample(["n1", "n2", "n3"], rn.randint(0, 3))})
+        return d
     return make
 
 
@@ -56,7 +63,11 @@ def check_partition(out, fail, got, overlay, label, what):
             fail("a key of a partition cannot be loaded (%s)" % type(e).__name__,
                  "%s %s key %r: %s" % (label, what, k, str(e)[:200]))
             continue
-        if not domain.eq(v, overlay[k]):
+        same, err = domain.eq_safe(v, overlay[k])
+        if err:  # the value was handed out, but using it (a nested partition's keys) raises
+            fail("a key of a partition cannot be loaded (%s)" % err.split(":")[0].split("(")[0].strip(),
+                 "%s %s key %r: using the value raises %s" % (label, what, k, err[:200]))
+        elif not same:
             fail("a key of a partition reads a value other than the overlay's (own keys win, parent-only keys remain)",
                  "%s %s key %r: expected %s got %s" % (label, what, k, domain.describe(overlay[k], 60),
                                                       domain.describe(v, 60)))
